@@ -130,8 +130,14 @@ func (h *APIHist) Build() (s *smf.SMF, m *Model, mismatch string) {
 				continue // writing a value without tracks fails and changes nothing
 			}
 			var bf bytes.Buffer
-			if _, err := s.WriteTo(&bf); err != nil {
-				mismatch = fmt.Sprintf("op %d: intermediate WriteTo failed: %v", i, err)
+			var werr error
+			cur0 := s
+			if g := guarded(libBudget, false, func() { _, werr = cur0.WriteTo(&bf) }); g.panicked || g.timeout {
+				mismatch = fmt.Sprintf("op %d: intermediate WriteTo panicked: %s", i, g.panicMsg)
+				continue
+			}
+			if werr != nil {
+				mismatch = fmt.Sprintf("op %d: intermediate WriteTo failed: %v", i, werr)
 				continue
 			}
 			// writing closes the open tracks of the value and promotes the format
@@ -144,7 +150,12 @@ func (h *APIHist) Build() (s *smf.SMF, m *Model, mismatch string) {
 				m.Format = 1
 			}
 			if op.Op == "reload" {
-				back, err := smf.ReadFrom(bytes.NewReader(bf.Bytes()))
+				var back *smf.SMF
+				var err error
+				if g := guarded(libBudget, false, func() { back, err = smf.ReadFrom(bytes.NewReader(bf.Bytes())) }); g.panicked || g.timeout {
+					mismatch = fmt.Sprintf("op %d: re-reading the intermediate file panicked: %s", i, g.panicMsg)
+					continue
+				}
 				if err != nil {
 					mismatch = fmt.Sprintf("op %d: re-reading the intermediate file failed: %v", i, err)
 					continue
